@@ -62,28 +62,28 @@ func callMerge(f mergeCall, a, b string) (out []byte, err error, pn *mon.Panic) 
 }
 
 // judgeMerge checks one MergePatch call against RFC 7396.
-func judgeMerge(c *core.Ctx, docT, patT string) {
+func judgeMerge(c *core.Ctx, f mergeCall, tag string, docT, patT string) {
 	doc, pat := mustParse(docT), mustParse(patT)
-	out, err, pn := callMerge(jp.MergePatch, docT, patT)
+	out, err, pn := callMerge(f, docT, patT)
 	c.Eval(1)
 	d := map[string]any{"doc": clip(docT, 1500), "patch": clip(patT, 1500), "output": clip(string(out), 1500), "error": errText(err)}
-	if doc.K == jr.Null || doc.HasDup() || pat.HasDup() {
+	if doc.K == jr.Null || doc.HasDup() || pat.HasDup() || (tag != "" && pat.K != jr.Obj && pat.K != jr.Arr) {
 		c.Count("out_of_domain")
 		return
 	}
 	c.Count("in_domain")
 	if pn != nil {
 		d["panic"] = panicDetail(pn)
-		c.Violation(pn.Sig(), d)
+		c.Violation(tag+pn.Sig(), d)
 		return
 	}
 	if err != nil {
-		c.Violation("merge-fails-on-wellformed-input", d)
+		c.Violation(tag+"merge-fails-on-wellformed-input", d)
 		return
 	}
 	got, perr := jr.Parse(out)
 	if perr != nil {
-		c.Violation("merge-output-not-json", d)
+		c.Violation(tag+"merge-output-not-json", d)
 		return
 	}
 	want := ref7396.Merge(doc, pat)
@@ -98,17 +98,17 @@ func judgeMerge(c *core.Ctx, docT, patT string) {
 		case ref7396.NullUnderArray(pat, false):
 			sig += ":null-member-beneath-array"
 		}
-		c.Violation(sig, d)
+		c.Violation(tag+sig, d)
 		return
 	}
 	// "verbatim": a non-object patch is returned with its literals (and, for arrays and scalars, its spelling) intact
 	if pat.K != jr.Obj && !jr.Equal(pat, got, jr.EqMode{Ordered: true}) {
-		c.Violation("non-object-patch-not-returned-verbatim", d)
+		c.Violation(tag+"non-object-patch-not-returned-verbatim", d)
 		return
 	}
 	c.Count("agree")
 	if pat.K == jr.Obj && len(pat.Keys) > 0 {
-		c.Nontrivial(docT, patT)
+		c.Nontrivial(tag, docT, patT)
 	}
 	switch {
 	case pat.K != jr.Obj:
@@ -155,17 +155,17 @@ func init() {
 		},
 		Families: []core.Family{
 			{Name: "universe-pairs", Exhaustive: true, Count: func(core.Tier) int { return universeN() * universeN() }, Run: func(c *core.Ctx, idx int) {
-				judgeMerge(c, universe[idx/len(universe)], universe[idx%len(universe)])
+				judgeMerge(c, jp.MergePatch, "", universe[idx/len(universe)], universe[idx%len(universe)])
 			}},
 			{Name: "derived-patches", Count: n(60000, 2000000), Run: func(c *core.Ctx, idx int) {
 				docT := prof.Any(c.R)
 				if idx%5 != 0 {
 					docT = prof.Object(c.R, 1+c.R.Intn(4))
 				}
-				judgeMerge(c, docT, genMergePatchFor(c.R, prof, mustParse(docT)))
+				judgeMerge(c, jp.MergePatch, "", docT, genMergePatchFor(c.R, prof, mustParse(docT)))
 			}},
 			{Name: "independent-pairs", Count: n(30000, 1000000), Run: func(c *core.Ctx, idx int) {
-				judgeMerge(c, prof.Any(c.R), prof.Any(c.R))
+				judgeMerge(c, jp.MergePatch, "", prof.Any(c.R), prof.Any(c.R))
 			}},
 		},
 	})
